@@ -2450,6 +2450,130 @@ def _defined_before_use(region: List[ast.stmt], w: str) -> bool:
     return d and not e
 
 
+def _coalesce_bound_copy(fn: ast.FunctionDef) -> bool:
+    """`w = v` at the top level of the body (w a name introduced by inlining) followed by a stretch of plain statements and
+    `if`s after which w is dead: when on every path through the stretch each read of v or w sees the value it would see
+    if both were ONE variable, they are one variable (w is renamed to v, the copies `v = w` disappear).  Typical residue of
+    an inlined helper that takes a variable, normalises it under its own parameter name and hands it back:
+    `x__inl = x; if x__inl is None: x = A else: x__inl = f(x__inl); x = x__inl`."""
+    def gen(name: str) -> bool:
+        return '__inl' in name or name.startswith('__r')
+
+    def occurs(node, name) -> bool:
+        return any(isinstance(n, ast.Name) and n.id == name for n in ast.walk(node))
+
+    for k, st in enumerate(fn.body):
+        if not (isinstance(st, ast.Assign) and len(st.targets) == 1 and isinstance(st.targets[0], ast.Name)
+                and isinstance(st.value, ast.Name) and gen(st.targets[0].id) and not gen(st.value.id)):
+            continue
+        w, v = st.targets[0].id, st.value.id
+        if any(occurs(x, w) for x in fn.body[:k]):
+            continue
+        last = max((q for q in range(k + 1, len(fn.body)) if occurs(fn.body[q], w)), default=None)
+        if last is None:
+            continue
+        region = fn.body[k + 1:last + 1]
+
+        def simple(stmts) -> bool:
+            for x in stmts:
+                if isinstance(x, ast.If):
+                    if not (simple(x.body) and simple(x.orelse)):
+                        return False
+                elif isinstance(x, (ast.Assign, ast.AugAssign, ast.Expr, ast.Assert, ast.Pass)):
+                    if any(isinstance(n, (ast.Lambda, ast.ListComp, ast.SetComp, ast.DictComp, ast.GeneratorExp, ast.NamedExpr))
+                           and (occurs(n, w) or occurs(n, v)) for n in ast.walk(x)):
+                        return False
+                elif occurs(x, w) or occurs(x, v):
+                    return False
+                else:
+                    # a statement that mentions neither (a loop, a nested definition ...) - but it must not bind them elsewhere
+                    if isinstance(x, (ast.FunctionDef, ast.ClassDef)):
+                        return False
+            return True
+        if not simple(region):
+            continue
+        ok_all = True
+        n_paths = 0
+
+        def run(stmts, two, one, k_):
+            """two = (version of v, version of w) in the program as it is; one = version of the merged variable"""
+            nonlocal ok_all, n_paths
+            for idx, x in enumerate(stmts):
+                if not ok_all:
+                    return None
+                if isinstance(x, ast.If):
+                    reads(x.test, two, one)
+                    rest = stmts[idx + 1:]
+                    for branch in (x.body, x.orelse):
+                        r = run(list(branch) + list(rest), two, one, k_)
+                    return 'split'
+                if isinstance(x, ast.Assign):
+                    reads(x.value, two, one)
+                    for tg in x.targets:
+                        for n in ast.walk(tg):
+                            if isinstance(n, ast.Name) and isinstance(n.ctx, ast.Load):
+                                reads(n, two, one)
+                    tv, tw = two
+                    plain = len(x.targets) == 1 and isinstance(x.targets[0], ast.Name)
+                    if plain and x.targets[0].id in (v, w) and isinstance(x.value, ast.Name) and x.value.id in (v, w):
+                        src = tv if x.value.id == v else tw          # a copy between the two
+                        two = (src, tw) if x.targets[0].id == v else (tv, src)
+                        # merged: `u = u`, nothing changes
+                    else:
+                        for tg in x.targets:
+                            for n in ast.walk(tg):
+                                if isinstance(n, ast.Name) and isinstance(n.ctx, ast.Store) and n.id in (v, w):
+                                    two = (id(x), tw) if n.id == v else (tv, id(x))
+                                    one = id(x)
+                                    tv, tw = two
+                elif isinstance(x, ast.AugAssign):
+                    reads(x.value, two, one)
+                    if isinstance(x.target, ast.Name) and x.target.id in (v, w):
+                        reads(ast.Name(id=x.target.id, ctx=ast.Load()), two, one)
+                        tv, tw = two
+                        two = (id(x), tw) if x.target.id == v else (tv, id(x))
+                        one = id(x)
+                    else:
+                        reads(x.target, two, one)
+                else:
+                    reads(x, two, one)
+            # end of the stretch: w is dead, v must hold what the merged variable holds
+            n_paths += 1
+            if two[0] != one:
+                ok_all = False
+            return 'end'
+
+        def reads(node, two, one):
+            nonlocal ok_all
+            for n in ast.walk(node):
+                if isinstance(n, ast.Name) and isinstance(n.ctx, ast.Load) and n.id in (v, w):
+                    cur = two[0] if n.id == v else two[1]
+                    if cur != one:
+                        ok_all = False
+        run(region, ('entry', 'entry'), 'entry', 0)
+        if not ok_all or n_paths == 0 or n_paths > 64:
+            continue
+        for n in ast.walk(fn):
+            if isinstance(n, ast.Name) and n.id == w:
+                n.id = v
+
+        def drop_self_copies(block):
+            keep = []
+            for x in block:
+                if isinstance(x, ast.Assign) and len(x.targets) == 1 and isinstance(x.targets[0], ast.Name) \
+                        and isinstance(x.value, ast.Name) and x.value.id == x.targets[0].id:
+                    continue
+                if not isinstance(x, (ast.FunctionDef, ast.ClassDef)):
+                    for b in _blocks_of(x):
+                        drop_self_copies(b)
+                keep.append(x)
+            block[:] = keep or [ast.Pass()]
+        drop_self_copies(fn.body)
+        _invalidate()
+        return True
+    return False
+
+
 def _coalesce_select(fn: ast.FunctionDef) -> bool:
     """`if c: w = A else: w = B` directly followed by `v = w`, w a name introduced by inlining that occurs nowhere
     else: the branches define v themselves (`v = v` arms disappear, an `if` left with an empty else loses it)."""
@@ -3535,7 +3659,7 @@ def normalize_function(fn: ast.FunctionDef, module_helpers: Dict[str, ast.Functi
             while _coalesce_copies(fn) or _coalesce_generated(fn) or _coalesce_select(fn):
                 ch = True
             ch = _inline_temps(fn, True) or ch
-            while _coalesce_copies(fn) or _coalesce_generated(fn) or _coalesce_select(fn):
+            while _coalesce_copies(fn) or _coalesce_generated(fn) or _coalesce_select(fn) or _coalesce_bound_copy(fn):
                 ch = True
             ch = _reuse_values(fn) or ch
             ch = _sink_defs_into_branches(fn) or ch
